@@ -9,6 +9,7 @@ package simrt
 import (
 	"runtime"
 	"sync"
+	"sync/atomic"
 	"unsafe"
 )
 
@@ -1130,62 +1131,78 @@ func RUnlock(m *sync.RWMutex) {
 // ---------------------------------------------------------------------------
 // sync.Once seam
 
-const maxOnce = 32
+const maxOnce = 64
 
+// sync.Once seam.  "Done" lives where the real Once keeps it - its first word, an
+// atomic.Uint32 in every Go release so far (checked by init below) - so that a Once completed
+// by uninstrumented means (ModeOff: the real Do) and one completed under the simulator agree,
+// values allocated per call need no table entry once they are done, and nothing leaks.  Only
+// the Once values whose function is RUNNING are kept in a small table, so that a second task
+// arriving meanwhile parks instead of blocking for real on the Once's internal mutex.
 var (
-	onceAddr  [maxOnce]unsafe.Pointer
-	onceState [maxOnce]int32 // 0 idle, 1 running, 2 done
-	onceSync  [maxOnce]uint64
-	nOnce     int32
+	onceAddr [maxOnce]unsafe.Pointer // running
+	onceOK   bool
 )
 
-//go:norace
-func onceSlot(o *sync.Once) int {
-	p := unsafe.Pointer(o)
-	for i := 0; i < int(nOnce); i++ {
-		if onceAddr[i] == p {
-			return i
-		}
-	}
-	if nOnce == maxOnce {
-		panic("simrt: too many sync.Once values")
-	}
-	onceAddr[nOnce] = p
-	nOnce++
-	return int(nOnce - 1)
+func init() {
+	var o sync.Once
+	before := *(*uint32)(unsafe.Pointer(&o))
+	o.Do(func() {})
+	onceOK = before == 0 && *(*uint32)(unsafe.Pointer(&o)) == 1
 }
 
 //go:norace
+func onceDone(o *sync.Once) bool { return atomic.LoadUint32((*uint32)(unsafe.Pointer(o))) == 1 }
+
+//go:norace
 func onceBegin(o *sync.Once) (slot int, run bool) {
-	i := onceSlot(o)
+	p := unsafe.Pointer(o)
 	for {
-		switch onceState[i] {
-		case 2:
-			raceAcquire(unsafe.Pointer(&onceSync[i]))
-			return i, false
-		case 0:
-			onceState[i] = 1
-			return i, true
+		if onceDone(o) {
+			raceAcquire(p)
+			return -1, false
+		}
+		free, running := -1, false
+		for i := range onceAddr {
+			if onceAddr[i] == p {
+				running = true
+				break
+			}
+			if onceAddr[i] == nil && free < 0 {
+				free = i
+			}
+		}
+		if !running {
+			if free < 0 {
+				panic("simrt: too many sync.Once functions running at the same time")
+			}
+			onceAddr[free] = p
+			return free, true
 		}
 		if mode != ModeSim {
 			panic(AbortPanic)
 		}
-		park(unsafe.Pointer(o))
+		park(p)
 	}
 }
 
 //go:norace
 func onceEnd(i int, o *sync.Once) {
-	raceReleaseMerge(unsafe.Pointer(&onceSync[i]))
-	onceState[i] = 2
+	p := unsafe.Pointer(o)
+	raceReleaseMerge(p)
+	atomic.StoreUint32((*uint32)(p), 1) // also after a panic of f, like the real Once
+	onceAddr[i] = nil
 	if mode == ModeSim {
-		wakeWaiters(unsafe.Pointer(o))
+		wakeWaiters(p)
 	}
 }
 
-// OnceDo replaces (*sync.Once).Do in every mode (the real Once is never touched, so all
-// calls on one Once value must go through here, which the instrumenter guarantees).
+// OnceDo replaces (*sync.Once).Do.
 func OnceDo(o *sync.Once, f func()) {
+	if mode == ModeOff || !onceOK {
+		o.Do(f)
+		return
+	}
 	i, run := onceBegin(o)
 	if !run {
 		return
